@@ -22,7 +22,7 @@ struct HalfaggSim {
     const Plan &p; Result &r; Net net;
     secp256k1_context *ctx = nullptr;
     uint64_t inseed = 0, draw = 0;
-    int n = 3; bool sloppy = false;
+    int n = 3; bool sloppy = false, use_static = false;
     std::vector<ref::Triple> truth;         // what the signers produced
     // aggregator
     struct Agg {
@@ -89,7 +89,7 @@ struct HalfaggSim {
         const secp256k1_xonly_pubkey *pkp = (nulls && ntot == 0) ? NULL : pks.data();
         const unsigned char *msgp = (nulls && ntot == 0) ? NULL : msgs.data(), *sigp = (nulls && news.empty()) ? NULL : sigs.data();
         if (nulls && (ntot == 0 || news.empty())) r.probe("null_arrays_with_zero_count");
-        int ok = L01(secp256k1_schnorrsig_inc_aggregate(ctx, buf.p(), &len, pkp, msgp, sigp, A.used.size(), news.size()));
+        int ok = L01(secp256k1_schnorrsig_inc_aggregate(frugal_ctx(use_static, ctx, "secp256k1_schnorrsig_inc_aggregate"), buf.p(), &len, pkp, msgp, sigp, A.used.size(), news.size()));
         r.cmp();
         if (!mon_quiet_since(mk)) { r.violate("C17", "callback", "secp256k1_schnorrsig_inc_aggregate", "callback on valid arguments: " + g_mon.last_illegal); return false; }
         if (!buf.intact()) { r.violate("C17", "overflow", "secp256k1_schnorrsig_inc_aggregate", "wrote outside the " + std::to_string(cap) + "-byte buffer"); return false; }
@@ -116,7 +116,7 @@ struct HalfaggSim {
             if (!S.agg.empty()) memcpy(work->p(), S.agg.data(), S.agg.size());
             size_t len = work->n;
             MonMark mk = mon_mark();
-            int ok = L01(secp256k1_schnorrsig_inc_aggregate(ctx, work->p(), &len, pks.data(), msgs.data(), sigs.data(), n_before, n_new));
+            int ok = L01(secp256k1_schnorrsig_inc_aggregate(frugal_ctx(use_static, ctx, "secp256k1_schnorrsig_inc_aggregate"), work->p(), &len, pks.data(), msgs.data(), sigs.data(), n_before, n_new));
             r.cmp();
             if (!ok || !mon_quiet_since(mk) || len != 32 * (ntot + 1) || !work->intact()) { r.violate("C17", "shadow_session", "secp256k1_schnorrsig_inc_aggregate", "aggregation in the shared work buffer failed"); return; }
             for (size_t i = 0; i < n_new; i++) S.used.push_back(S.all[n_before + i]);
@@ -175,7 +175,7 @@ struct HalfaggSim {
           for (int i = 0; i < A.n; i++) { parse_ok = parse_ok && L01(secp256k1_xonly_pubkey_parse(ctx, &pks[i], A.used[i].pk)); memcpy(&msgs[32 * i], A.used[i].msg, 32); memcpy(&sigs[64 * i], A.used[i].sig, 64); }
           if (parse_ok) {
               Buf one(32 * (A.n + 1)); size_t ol = 32 * (A.n + 1);
-              int ok = L01(secp256k1_schnorrsig_aggregate(ctx, one.p(), &ol, pks.data(), msgs.data(), sigs.data(), A.n));
+              int ok = L01(secp256k1_schnorrsig_aggregate(frugal_ctx(use_static, ctx, "secp256k1_schnorrsig_aggregate"), one.p(), &ol, pks.data(), msgs.data(), sigs.data(), A.n));
               r.cmp();
               if (!ok || ol != 32 * (size_t)(A.n + 1) || one.bytes() != A.agg) { r.violate("C17", "oneshot_mismatch", "secp256k1_schnorrsig_aggregate", "one-shot aggregation differs from the incrementally built aggregate"); return; }
           } }
@@ -232,7 +232,7 @@ struct HalfaggSim {
         Buf ab(v_agg.data(), v_agg.size());
         MonMark mk = mon_mark();
         bool vn = p.c("nullptrs") && k == 0;
-        int v = v_agg.empty() ? 0 : L01(secp256k1_schnorrsig_aggverify(ctx, vn ? NULL : pks.data(), vn ? NULL : msgs.data(), k, ab.p(), v_agg.size()));
+        int v = v_agg.empty() ? 0 : L01(secp256k1_schnorrsig_aggverify(frugal_ctx(use_static, ctx, "secp256k1_schnorrsig_aggverify"), vn ? NULL : pks.data(), vn ? NULL : msgs.data(), k, ab.p(), v_agg.size()));
         bool mv = !v_agg.empty() && ref::halfagg_verify(mpk, mmsg, v_agg.data(), v_agg.size());
         r.cmp();
         verdict_seen = true;
@@ -250,7 +250,7 @@ struct HalfaggSim {
     void run() {
         inseed = (uint64_t)p.c("inseed");
         n = (int)std::max<int64_t>(0, std::min<int64_t>(64, p.c("n", 3)));
-        sloppy = p.c("sloppy");
+        sloppy = p.c("sloppy"); use_static = p.c("static_ctx"); if (use_static) r.fault("nodes_use_static_context");
         int nk = (int)std::max<int64_t>(1, std::min<int64_t>(4, p.c("nkeys", 2)));
         ctx = L(secp256k1_context_create(SECP256K1_CONTEXT_NONE));
         if (p.c("comp")) L(secp256k1_context_set_sha256_compression(ctx, sim_model_compression));
@@ -318,7 +318,7 @@ static Plan halfagg_generate(uint64_t seed, int tier) {
     Plan p;
     p.cfg["inseed"] = (int64_t)(g.next() >> 1);
     int n = g.chance(1, 10) ? 0 : (g.chance(1, 8) ? (int)g.range(13, tier ? 64 : 24) : (int)g.range(1, 12));
-    p.cfg["n"] = n; p.cfg["nkeys"] = (int64_t)g.range(1, 4); p.cfg["sloppy"] = g.chance(1, 5); p.cfg["comp"] = g.chance(1, 5); p.cfg["shadow"] = g.chance(1, 3); p.cfg["nullptrs"] = g.chance(1, 2);
+    p.cfg["n"] = n; p.cfg["nkeys"] = (int64_t)g.range(1, 4); p.cfg["sloppy"] = g.chance(1, 5); p.cfg["comp"] = g.chance(1, 5); p.cfg["shadow"] = g.chance(1, 3); p.cfg["nullptrs"] = g.chance(1, 2); p.cfg["static_ctx"] = g.chance(1, 3);
     // delivery schedule of the triples = the split of the incremental aggregation
     int style = (int)g.below(4);
     for (int i = 0; i < n; i++) {
